@@ -223,7 +223,96 @@ class _IfExpToIf(ast.NodeTransformer):
         return r or node
 
 
+def _format_to_percent(fmt, nargs):
+    """'{0}:{1}' / '{}:{}' -> ('%s:%s', [0, 1]) or None when the format string
+    uses anything but plain positional fields."""
+    import string
+    out = []
+    order = []
+    auto = 0
+    try:
+        parts = list(string.Formatter().parse(fmt))
+    except ValueError:
+        return None
+    for lit, field, spec, conv in parts:
+        out.append(lit.replace('%', '%%'))
+        if field is None:
+            continue
+        if spec or conv:
+            return None
+        if field == '':
+            idx = auto
+            auto += 1
+        elif field.isdigit():
+            idx = int(field)
+        else:
+            return None
+        if idx >= nargs:
+            return None
+        order.append(idx)
+        out.append('%s')
+    return ''.join(out), order
+
+
+class _FormatToPercent(ast.NodeTransformer):
+    """``'{}:{}'.format(a, b)`` and ``f'{a}:{b}'`` are ``'%s:%s' % (a, b)``."""
+
+    def visit_Call(self, node):
+        self.generic_visit(node)
+        if isinstance(node.func, ast.Attribute) and \
+                node.func.attr == 'format' and isinstance(
+                node.func.value, ast.Constant) and isinstance(
+                node.func.value.value, str) and not node.keywords and \
+                not any(isinstance(a, ast.Starred) for a in node.args):
+            r = _format_to_percent(node.func.value.value, len(node.args))
+            if r is not None:
+                fmt, order = r
+                args = [node.args[i] for i in order]
+                right = ast.Tuple(elts=args, ctx=ast.Load())
+                return ast.copy_location(ast.BinOp(
+                    left=ast.copy_location(ast.Constant(value=fmt),
+                                           node.func.value),
+                    op=ast.Mod(), right=ast.copy_location(right, node)), node)
+        return node
+
+    def visit_JoinedStr(self, node):
+        self.generic_visit(node)
+        fmt = []
+        args = []
+        for v in node.values:
+            if isinstance(v, ast.Constant) and isinstance(v.value, str):
+                fmt.append(v.value.replace('%', '%%'))
+            elif isinstance(v, ast.FormattedValue) and v.conversion == -1 \
+                    and v.format_spec is None:
+                fmt.append('%s')
+                args.append(v.value)
+            elif isinstance(v, ast.FormattedValue) and v.conversion == 114 \
+                    and v.format_spec is None:
+                fmt.append('%r')
+                args.append(v.value)
+            else:
+                return node
+        if not args:
+            return node
+        return ast.copy_location(ast.BinOp(
+            left=ast.copy_location(ast.Constant(value=''.join(fmt)), node),
+            op=ast.Mod(), right=ast.copy_location(
+                ast.Tuple(elts=args, ctx=ast.Load()), node)), node)
+
+
+class _PercentTuple(ast.NodeTransformer):
+    """``'...%s' % x`` with a single placeholder and a non-tuple operand that
+    is syntactically not a tuple/dict stays as it is (the runtime meaning
+    depends on the operand); ``'...' % (x,)`` is the canonical one-field
+    form."""
+
+    def visit_BinOp(self, node):
+        self.generic_visit(node)
+        return node
+
+
 def normalise(tree):
+    _FormatToPercent().visit(tree)
     _IfExpToIf().visit(tree)
     _ConstRight().visit(tree)
     _NNF().visit(tree)
